@@ -47,7 +47,7 @@ class C14(Prop):
                    'ignored), zeros/ones/uniform/from_data.')
     rule = ('pair case = (size assignment in {1,2,3}^4 of a,b,c,d) x (ordered subset A) x (ordered subset B), 65 ordered subsets incl. empty and full; '
             'per pair: +,-,*,logaddexp, condition under EVERY evidence assignment of B; if set(B)<=set(A) also +=,*=, / (A non-empty), sum/logsumexp/max over B, '
-            'project(B) with both aggregators; if set(A)==set(B) transpose; if set(A)<=set(B) expand. quick: every one of the 4225 ordered pairs 6 times with sizes drawn at random, 1300 unary and 3000 CliqueVector cases; '
+            'project(B) with both aggregators; if set(A)==set(B) transpose; if set(A)<=set(B) expand. quick: every one of the 4225 ordered pairs 3 times with sizes drawn at random, 650 unary and 1500 CliqueVector cases; '
             'thorough: all 81 x 4225 = 342225 structural pair cases and all 81 x 65 unary structures (this structural space is enumerated completely; '
             'cell VALUES are seeded random samples - dyadic rationals in [-4,4] with zeros, pattern neginf adds -inf cells - one draw per structural case; '
             'CliqueVector cases are seeded random samples of clique lists, not an enumeration). Scalar * and / and CliqueVector - use finite values only '
@@ -60,7 +60,7 @@ class C14(Prop):
                    'in-place and division forms are only defined when the right operand\'s attributes are contained in the left one\'s (precondition of expand); '
                    'division of a zero-attribute factor by a factor is outside the generated family (numpy returns a scalar that the code cannot index)',
                    'CliqueVector.random / normal are not exercised (they call Factor.random with a second argument and a non-existent Factor.normal)']
-    quick_budget_s = 80
+    quick_budget_s = 60
     thorough_budget_s = 1500
     exhaustive = {'quick': False, 'thorough': True}
 
@@ -106,9 +106,9 @@ class C14(Prop):
                         n_records=int(rng.choice([0, 1, 5, 20])), weighted=bool(rng.rand() < 0.5))
 
         if tier == 'quick':
-            pairs = [(int(rng.randint(len(SIZE_ASSIGNMENTS))), i, j) for _ in range(6) for i in range(n_sub) for j in range(n_sub)]
-            unaries = [(int(rng.randint(len(SIZE_ASSIGNMENTS))), i) for i in range(n_sub) for _ in range(20)]
-            n_cv = 3000
+            pairs = [(int(rng.randint(len(SIZE_ASSIGNMENTS))), i, j) for _ in range(3) for i in range(n_sub) for j in range(n_sub)]
+            unaries = [(int(rng.randint(len(SIZE_ASSIGNMENTS))), i) for i in range(n_sub) for _ in range(10)]
+            n_cv = 1500
         else:
             pairs = [(s, i, j) for s in range(len(SIZE_ASSIGNMENTS)) for i in range(n_sub) for j in range(n_sub)]
             unaries = [(s, i) for s in range(len(SIZE_ASSIGNMENTS)) for i in range(n_sub)]
